@@ -9,6 +9,11 @@ CONSTANTS
   MaxFiles = 3
   MaxCrash = 1
   MaxLevel = 2
+  DKeys = {"k1", "k2"}
+  DVals = {"v1"}
+  DSync = "none"
+  DMaxOps = 2
+  DMaxBatch = 2
 INVARIANT Inv
 PROPERTY LastSeqMonotone
 CONSTRAINT StateBound
